@@ -582,7 +582,7 @@ def peep_sound(ctx, r):
         # concrete rewrites: compare the effect of the window and of its replacement on an abstract stack
         if ret is False:
             continue
-        check_concrete_rewrite(r, by, a2v, pats, guard, pushed, line)
+        check_concrete_rewrite(r, by, a2v, pats, guard, pushed, line, preds={nm: t for nm, fn_ in fns.items() if fn_ is not None and fn_.get("body") is not None and nm not in ("peephole2_helper", "peephole3_helper") for t in [predicate_table(fn_)] if t})
 
 
 def first_index(parms, rw):
@@ -747,14 +747,51 @@ def concrete_instances(pat):
 BINDING_DOMAINS = {"bool": [True, False], "u16": [0, 1, 2], "i16": [("Offset", 3)], "AbraInt": [7], "Label": ["L"], "String": ["s"]}
 
 
-def check_concrete_rewrite(r, by, a2v, pats, guard, pushed, line):
+def _error_kinds(an):
+    """Runtime error kinds a VM arm can record."""
+    out = set()
+    for ev in (an.events if an is not None else []):
+        if ev.kind == "assign" and ev.data[0] == ("self", "error"):
+            for t in subterms_of(ev.data[1]):
+                if isinstance(t, tuple) and t and t[0] == "error":
+                    out.add(t[1])
+    return out
+
+
+def subterms_of(s):
+    if isinstance(s, tuple):
+        yield s
+        for x in s:
+            yield from subterms_of(x)
+    elif isinstance(s, list):
+        for x in s:
+            yield from subterms_of(x)
+
+
+def check_concrete_rewrite(r, by, a2v, pats, guard, pushed, line, preds=None):
     i1 = instr_pats(pats[0])
     i2 = instr_pats(pats[1])
     label = " ; ".join(q.show_pat(p) for p in pats)
     key = "optimize_bytecode.rs:peephole2:" + "+".join(v for v, _ in i1) + ";" + "+".join(v for v, _ in i2)
     if guard is not None:
-        r.missing(key + ":guarded-concrete-rewrite", OPT, "a concrete rewrite with a guard is not modelled")
-        return
+        # `(x, ..) if x.pred()` with `pred` a table of instruction forms (`matches!(self, A(..) | B(..))`): the bound slot
+        # stands for each listed form in turn
+        g = guard
+        while g["k"] == "Paren":
+            g = g["e"]
+        tbl = None
+        if g["k"] == "MethodCall" and g["recv"]["k"] == "Path" and not g["args"] and preds and g["m"] in preds:
+            tbl = preds[g["m"]]
+            b = "=" + g["recv"]["p"]
+            if i1 == [(b, [])]:
+                i1 = tbl
+            elif i2 == [(b, [])]:
+                i2 = tbl
+            else:
+                tbl = None
+        if tbl is None:
+            r.missing(key + ":guarded-concrete-rewrite", OPT, "a concrete rewrite with a guard that is not a table predicate on a whole instruction is not modelled")
+            return
     enum_items = None
     n = 0
     for (v1, s1), (v2, s2) in itertools.product(i1, i2):
@@ -778,6 +815,14 @@ def check_concrete_rewrite(r, by, a2v, pats, guard, pushed, line):
             else:
                 r.missing(key + ":replacement-form", OPT, q.show(pushed))
                 return
+        # the same stack effect is not enough: an instruction that can stop the program with a runtime error may only be
+        # replaced by something that raises the same error (decided from the arms' error events, before any execution)
+        anr0 = by.get(a2v.get(rep[0])) if rep is not None else None
+        lost = (_error_kinds(an1) | _error_kinds(an2)) - (_error_kinds(anr0) if anr0 is not None else set())
+        if lost:
+            r.find(key + f":drops-runtime-error:{v1};{v2}", OPT, line,
+                   f"rewrite `{label}` ({v1}; {v2}): the window can stop the program with {sorted(lost)} (the VM arm of {v1 if _error_kinds(an1) else v2} checks its operation), its replacement {'is empty' if anr0 is None else 'cannot'}: `a + b` as a statement with an overflowing sum no longer reports the overflow, and the program behaves differently with and without the optimiser")
+            continue
         doms = []
         names = sorted(binds)
         for b in names:
@@ -867,6 +912,10 @@ def slots_to_imm(slots, bv):
             imm[j] = {"true": True, "false": False}.get(lit, int(lit) if lit.lstrip("-").isdigit() else lit)
         elif s.startswith("="):
             imm[j] = bv[s[1:]]
+        elif s == "Offset":
+            imm[j] = ("Offset", 3 + j)
+        elif s == "_":
+            imm[j] = 7
     return imm
 
 
